@@ -261,7 +261,7 @@ def rule_T3_traits(ctx, F):
                    "%s calls %s ; required exactly the inherent method with its own arguments" % (path, [show(c[1]) for c in cs]))
     SELF = ("arg", 1, "self")
     # FixedOutput::finalize_into(self, out): out.copy_from_slice(self.finalize().as_bytes())
-    fin_bytes = P.cast(P.call("Hash::as_bytes", P.call("Hasher::finalize", SELF)), W())
+    fin_bytes = P.cast(("path", P.call("Hasher::finalize", SELF), ("0",)), W())      # finalize().as_bytes() is finalize().0 (accessor seen through)
     for path, resets in (("traits::<impl digest::FixedOutput for Hasher>::finalize_into", False),
                          ("traits::<impl digest::FixedOutputReset for Hasher>::finalize_into_reset", True)):
         fn = F.need_fn(path)
@@ -336,7 +336,7 @@ def rule_T3_guts(ctx, F):
     e = val(fn.expr_local(0))
     ctx.ob(unify(P.call("ChunkState::count", P.self_("0")), e) is not None, "guts-len", fn.loc, "len = %s" % show(e))
     out_chunk = P.call("ChunkState::output", P.self_("0"))
-    out_parent = P.call("parent_node_output", P.call("Hash::as_bytes", P.arg("left_child")), P.call("Hash::as_bytes", P.arg("right_child")),
+    out_parent = P.call("parent_node_output", ("path", P.arg("left_child"), ("0",)), ("path", P.arg("right_child"), ("0",)),
                         P.named("IV"), P.const(0), P.call("platform::Platform::detect"))
     for path, outp in (("guts::ChunkState::finalize", out_chunk), ("guts::parent_cv", out_parent)):
         fn = F.need_fn(path)
